@@ -70,12 +70,19 @@ func (st *State) Call(fv *FuncV, args []Value, deferOf *frame) Value {
 		}
 		return h(st, args)
 	}
+	if fv.Recv != nil {
+		// a method value obtained through reflection: the receiver is bound
+		args = append([]Value{fv.Recv}, args...)
+	}
 	return st.callFn(fv.Fn, args, fv.Env, deferOf)
 }
 
 func (st *State) callFn(fn *ssa.Function, args []Value, env []Value, deferOf *frame) Value {
 	name := fn.String()
 	if fn.Synthetic != "" && fn.Blocks == nil && fn.Name() == "init" {
+		return nil
+	}
+	if st.E.skipInitFn(fn) {
 		return nil
 	}
 	if fn.Pkg != nil && st.E.isTargetPkg(fn.Pkg) {
